@@ -111,6 +111,19 @@ func RunE2E(o *drv.Out) {
 						q.Signature.Bitmap[i/8] |= 1 << uint(i%8)
 					}
 				}},
+				// as many padding bits as there are non-signers: the raw popcount of the bitmap equals the committee size
+				{"padding-popcount", quorum(true), pv, func(q *lib.QuorumCertificate) {
+					set := 0
+					for i := 0; i < len(powers); i++ {
+						if q.Signature.Bitmap[i/8]&(1<<uint(i%8)) != 0 {
+							set++
+						}
+					}
+					for i := len(powers); i < len(q.Signature.Bitmap)*8 && set < len(powers); i++ {
+						q.Signature.Bitmap[i/8] |= 1 << uint(i%8)
+						set++
+					}
+				}},
 				{"bitmap-len", quorum(false), pv, func(q *lib.QuorumCertificate) { q.Signature.Bitmap = append(q.Signature.Bitmap, 0) }},
 				{"nil-results", quorum(false), pv, func(q *lib.QuorumCertificate) { q.Results = nil }},
 				{"signed-for-other-chain", quorum(false), pv, nil},
